@@ -224,6 +224,11 @@ theorem gate_flushed (ops : List Gate.Op) :
 /-- the gate of the source is the atomic one (read from client_socket.go by the translator) -/
 theorem gate_is_atomic : Gen.sioClientGateAtomic = true := by decide
 
+/-- and the flush of the offline buffer hands the backlog on before sendBufferMu is released (the model's `flush` is one step):
+    released earlier, an emit of the goroutine that filled the backlog finds the socket connected and the buffer empty and
+    overtakes the whole backlog -/
+theorem flush_is_atomic : Gen.sioClientFlushUnderLock = true := by decide
+
 /-- why it matters: with the state read first and acted upon later (the code before finding D37) a
     packet overtakes the buffered one, and another is stranded in the buffer of a connected socket -/
 theorem split_gate_reorders :
